@@ -18,25 +18,9 @@ theorem World.get_storeMeta_other (w : World) {k k' : Str} (status : Str) (h : k
     (w.storeMeta k status).get k' = w.get k' := by
   unfold World.get; rw [World.entry_storeMeta_other w status h]
 
-/-- plain parameters: no world traffic, no calls, same conversion -/
-theorem evalParams_plain_exact (env : Env) : ∀ n (w : World) (ps : List Param) (raw parent : Str),
-    ps.all Param.isStr = true →
-      evalParams env n w ps raw parent = (w, (refParams env n ps raw parent).1) ∧ (refParams env n ps raw parent).2 = []
-  | 0, w, ps, raw, parent, _ => by rw [evalParams_zero, refParams_zero]; exact ⟨rfl, rfl⟩
-  | n + 1, w, [], raw, parent, _ => by rw [evalParams_nil, refParams_nil]; exact ⟨rfl, rfl⟩
-  | n + 1, w, .str t pos :: ps, raw, parent, h => by
-    rw [evalParams_str, refParams_str]
-    obtain ⟨h1, h2⟩ := evalParams_plain_exact env n w ps raw parent (by simpa [Param.isStr] using h)
-    rw [h1]
-    generalize refParams env n ps raw parent = x at h2 ⊢
-    rcases x with ⟨r, c⟩
-    simp only at h2; subst h2
-    cases r <;> exact ⟨rfl, rfl⟩
-  | n + 1, w, .link lq pos :: ps, raw, parent, h => by simp [Param.isStr] at h
-
-theorem call_plain_exact (env : Env) (n : Nat) (w1 : World) (st act raw sig x) (hns : sig.name ≠ s "sub") :
-    (evalCall env n w1 st act raw sig x).2 = (refCall env n st act raw sig x).1 ∧
-    (evalCall env n w1 st act raw sig x).1.calls = w1.calls ++ (refCall env n st act raw sig x).2 := by
+theorem call_plain_exact (env : Env) (n : Nat) (w1 : World) (st act raw sig x) (uc : Bool) (hns : sig.name ≠ s "sub") :
+    (evalCall env n w1 st act raw sig x uc).2 = (refCall env n st act raw sig x).1 ∧
+    (evalCall env n w1 st act raw sig x uc).1.calls = w1.calls ++ (refCall env n st act raw sig x).2 := by
   unfold evalCall refCall
   split
   · exact ⟨rfl, by simp⟩
@@ -66,7 +50,7 @@ theorem act_plain_exact (env : Env) (n : Nat) (w : World) (st : EState) (a : Act
       · split
         · exact ⟨rfl, by simp⟩
         · next sig hr =>
-          obtain ⟨h1, h2⟩ := evalParams_plain_exact env n (w.storeMeta raw (s "evaluation")) a.params raw parent ha.2
+          obtain ⟨h1, h2⟩ := evalParams_plain_exact env n (w.metaIf uc raw (s "evaluation")) a.params raw parent ha.2
           rw [h1]
           generalize refParams env n a.params raw parent = x at h2 ⊢
           rcases x with ⟨r, c⟩
@@ -74,8 +58,8 @@ theorem act_plain_exact (env : Env) (n : Nat) (w : World) (st : EState) (a : Act
           cases r with
           | inr o => exact ⟨rfl, by simp⟩
           | inl g =>
-            obtain ⟨g1, g2⟩ := call_plain_exact env n (w.storeMeta raw (s "evaluation")) st a raw sig
-              (applyExtra extra g) (by rw [resolve_name hr]; exact ha.1)
+            obtain ⟨g1, g2⟩ := call_plain_exact env n (w.metaIf uc raw (s "evaluation")) st a raw sig
+              (applyExtra extra g) uc (by rw [resolve_name hr]; exact ha.1)
             exact ⟨g1, by simpa using g2⟩
 
 /-- C09: the extension of a cached prefix executes the last action only -/
@@ -99,7 +83,7 @@ theorem extension_runs_last_step (env : Env) (n m : Nat) (w w' : World) (p q : Q
     hget0 rfl rfl
   have hs0 : s0.isError = false := by rw [EState.core_isError hcore]; exact he
   rw [evalQ_succ]
-  simp only [hmiss, Extra.isEmpty, Option.isNone_none, Bool.and_self, if_true, Query.predecessor_not_isRes hq,
+  simp only [World.metaIf_true, hmiss, Extra.isEmpty, Option.isNone_none, Bool.and_self, if_true, Query.predecessor_not_isRes hq,
     Bool.false_eq_true, if_false, hq, hpe, hhit, evalAfter, hs0, evalPost]
   obtain ⟨g1, g2⟩ := act_plain_exact env (m+1) (w'.storeMeta raw (s "evaluating parent")) s0 a raw
     (p.encode Gen.escapeTable) .none true ha
@@ -142,7 +126,7 @@ theorem extension_runs_last_step_links {env : Env} {C : Query → Prop} {T : Str
   obtain ⟨_, hw⟩ := (refines hC hcanon (m+1)).act (w'.storeMeta raw (s "evaluating parent")) s0 a raw
     (p.encode Gen.escapeTable) .none true (hS'.storeMeta _ _) hL hSub
   rw [evalQ_succ] at hne ⊢
-  simp only [hmiss, Extra.isEmpty, Option.isNone_none, Bool.and_self, if_true, Query.predecessor_not_isRes hq,
+  simp only [World.metaIf_true, hmiss, Extra.isEmpty, Option.isNone_none, Bool.and_self, if_true, Query.predecessor_not_isRes hq,
     Bool.false_eq_true, if_false, hq, hpe, hhit, evalAfter, hs0, evalPost] at hne ⊢
   generalize evalAction env (m+1) (w'.storeMeta raw (s "evaluating parent")) s0 a raw (p.encode Gen.escapeTable) .none true = y at hw hne ⊢
   rcases y with ⟨w2, o2⟩
